@@ -116,31 +116,36 @@ theorem instantiate_eq (d : ModDesc) (r : Resolver) (start : St → Out St) (w :
     instantiate d r start w = (initAll d r w >>= fun s => if d.hasStart then start s else .val s) := by
   unfold instantiate initAll runSteps
   have h0 : initImports d r (w, {}) = .val (w, imp0 d r) := rfl
-  dsimp only [Gen.instantiateSteps, foldM', initDefinitionGuard, stepFn]
-  have ga : guardHolds d [.always] = true := rfl
-  simp only [ga, if_true, h0, Out.bind_val]
-  have dup : ∀ (c : Bool) (a b e : Out St), (if c = true then (if c = true then a else b) else e) = if c = true then a else e := by
-    intro c a b e; cases c <;> simp
   have bind_ret : ∀ (x : Out St), (x >>= fun s => Out.val s) = x := by intro x; cases x <;> rfl
-  have hstart : guardHolds d [.hasStart] = d.hasStart := by simp [guardHolds, atomHolds]
-  simp only [hstart]
-  rw [step_memories d (w, imp0 d r) rfl]
+  have e0 : runStep d r start (w, {}) ([.always], .imports) = .val (w, imp0 d r) := rfl
+  have e1 : ∀ s : St, s.2.mems = [] → runStep d r start s ([.memDefined, .hasData], .memories) = initMemories d s :=
+    fun s hs => step_memories d s hs
+  have e2 : ∀ s : St, s.2.tables = [] → runStep d r start s ([.tableDefined, .hasElems], .tables) = initTables d s :=
+    fun s hs => step_tables d s hs
+  have e3 : ∀ s : St, s.2.globals = [] → runStep d r start s ([.globalsDefined], .globals) = initGlobals d s :=
+    fun s hs => step_globals d s hs
+  have e4 : ∀ s : St, runStep d r start s ([.hasStart], .start) = if d.hasStart then start s else .val s := by
+    intro s
+    show (if guardHolds d [.hasStart] then (if guardHolds d [.always] then start s else .ub .unboundVar) else .val s) = _
+    have hstart : guardHolds d [.hasStart] = d.hasStart := by simp [guardHolds, atomHolds]
+    have ga : guardHolds d [.always] = true := rfl
+    simp [hstart, ga]
+  simp only [Gen.instantiateSteps, foldM', e0, h0, Out.bind_val, e4]
+  rw [e1 (w, imp0 d r) rfl]
   cases h1 : initMemories d (w, imp0 d r) with
   | val s1 =>
     obtain ⟨ht, hgl⟩ := initMemories_inst d _ s1 h1
     simp only [Out.bind_val]
-    rw [step_tables d s1 (by rw [ht]; rfl)]
+    rw [e2 s1 (by rw [ht]; rfl)]
     cases h2 : initTables d s1 with
     | val s2 =>
       have hg2 := initTables_inst d s1 s2 h2
       simp only [Out.bind_val]
-      rw [step_globals d s2 (by rw [hg2, hgl]; rfl)]
+      rw [e3 s2 (by rw [hg2, hgl]; rfl)]
       cases h3 : initGlobals d s2 with
       | val s3 =>
         simp only [Out.bind_val]
-        cases d.hasStart
-        · rfl
-        · simp only [if_true]; exact bind_ret _
+        exact bind_ret _
       | trap t => rfl
       | ub k => rfl
       | oof => rfl
